@@ -5,6 +5,7 @@
   into it free of ∞ (model level).  Helper lemmas: Mwp/Lemmas/Misc08.lean.
 -/
 import Mwp.Lemmas.Misc08
+import Mwp.Lemmas.LoopSound
 namespace Mwp.Props.C08
 open Mwp Mwp.Analysis Mwp.LoopAnalysis Mwp.Misc08
 
@@ -148,5 +149,47 @@ example (r : VRes) (h : getResult relDep 1 "v" = .ok r) (c : Choices.T) (hc : r.
       simp only [List.mem_singleton] at hs
       subst hs
       exact ⟨by decide, by decide⟩)).2.1
+
+/-! ## The main clause, against the calculus itself
+
+`Spec.semI` is the calculus with failure recorded per cell (Mwp/Spec/CalculusInf.lean: the same
+rules as `Spec.sem`, a failing side condition becomes ∞ in the cells it concerns and travels along
+flows only); `Spec.okFor S v` says that the derivation is failure-free for `v` and for every
+variable with a non-zero path into `v`. -/
+
+/-- **C08 (model).**  For every loop statement (any nesting inside it) the loop-mode analysis of the
+    model reports a choice for a variable only if, at that choice, the calculus derivation is
+    failure-free for the variable and all its ancestors -- and the column the bound is read from is
+    the calculus' column.  `hloop`: the statement is a `while` / `do-while` / counted `for` (loop mode
+    only analyses loops; for other statements the claim is false, `LoopSoundEx.needs_loop`);
+    `hres`: no empty or reserved (`true` / `false`) names. -/
+theorem loop_mode_bound_is_a_valid_derivation (loop : Node) (cmd : Spec.Cmd)
+    (hd : Spec.desugar loop = some cmd) (hloop : LoopSound.isLoopCmd cmd = true)
+    (hnames : Refine.namesOkA loop = true) (hfresh : Refine.guardsFresh cmd = true)
+    (hres : ∀ v ∈ cmd.vars, v ≠ "" ∧ v ∉ Gen.reserved)
+    (rel : Relation) (index : Nat) (infty : Bool) (h : inspectRel loop = .ok (rel, index, infty))
+    (v : String) (r : VRes) (hr : getResult rel index v = .ok r)
+    (c : Choices.T) (hc : r.choices = some c) (vec : List Nat)
+    (hvec : Choices.VecOK Gen.domain index vec) (hacc : Choices.isValid c vec = true) :
+    Spec.okFor (Spec.semI rel.vars cmd 0 (Spec.relabel cmd vec)).2 (Spec.idxOf rel.vars v) = true ∧
+    Spec.SMat.column (Spec.semI rel.vars cmd 0 (Spec.relabel cmd vec)).2 (Spec.idxOf rel.vars v)
+      = Spec.SMat.column (rel.applyChoice vec) (Spec.idxOf rel.vars v) :=
+  loop_mode_sound_of_names loop cmd hd hloop hnames hfresh hres rel index infty h v r hr c hc vec hvec hacc
+
+/-- the same for the results of `maybe_result` (some variables fail at every choice): every entry
+    that carries a choice object came from `get_result` and is sound in the same sense -/
+theorem loop_mode_partial_results_are_valid_derivations (loop : Node) (cmd : Spec.Cmd)
+    (hd : Spec.desugar loop = some cmd) (hloop : LoopSound.isLoopCmd cmd = true)
+    (hnames : Refine.namesOkA loop = true) (hfresh : Refine.guardsFresh cmd = true)
+    (rel : Relation) (index : Nat) (infty : Bool) (h : inspectRel loop = .ok (rel, index, infty))
+    (hcov : ∀ v ∈ cmd.vars, v ∈ rel.vars)
+    (pick : Option (List Nat)) (rs : List VRes) (hm : maybeResult rel index pick = .ok rs)
+    (r : VRes) (hrs : r ∈ rs) (c : Choices.T) (hc : r.choices = some c) (vec : List Nat)
+    (hvec : Choices.VecOK Gen.domain index vec) (hacc : Choices.isValid c vec = true) :
+    ∃ v, getResult rel index v = .ok r ∧
+      Spec.okFor (Spec.semI rel.vars cmd 0 (Spec.relabel cmd vec)).2 (Spec.idxOf rel.vars v) = true ∧
+      Spec.SMat.column (Spec.semI rel.vars cmd 0 (Spec.relabel cmd vec)).2 (Spec.idxOf rel.vars v)
+        = Spec.SMat.column (rel.applyChoice vec) (Spec.idxOf rel.vars v) :=
+  loop_mode_sound_maybe loop cmd hd hloop hnames hfresh rel index infty h hcov pick rs hm r hrs c hc vec hvec hacc
 
 end Mwp.Props.C08
